@@ -137,3 +137,71 @@ Proof.
   destruct G as [G|G]; [congruence|]. split; [exact G|]. split; [apply boundaries_convert|].
   unfold guarded. rewrite H, is_dae_gen_agrees, D, boundaries_convert, G. reflexivity.
 Qed.
+
+(* ---------------------------------------------------------------- shading parameters, primitive inputs *)
+
+Lemma good_shading_param ns x : good (load_shading_param ns x).
+Proof.
+  unfold load_shading_param. destruct (xkids x) as [|v r]; [leaf|].
+  destruct (is_tag ns a_color v).
+  { pose proof (good_vem _ (good_parse_color (xtext v))) as H.
+    destruct (value_error_is_malformed (parse_color (xtext v))); simpl in *; auto. }
+  destruct (is_tag ns a_float v); [destruct (parse_float (xtext v)); leaf|].
+  destruct (is_tag ns a_texture v); [destruct (xattr a_texture v); leaf|].
+  destruct (is_tag ns a_param v); leaf.
+Qed.
+
+Lemma good_parse_offsets : forall ins, good (parse_offsets ins).
+Proof.
+  induction ins as [|i r IH]; simpl; [exact I|].
+  destruct (xattr a_offset i) as [[a|h a|z]|]; try leaf.
+  destruct (parse_offsets r); simpl in *; auto.
+Qed.
+
+Lemma good_check_input sc i : good (check_input sc i).
+Proof.
+  unfold check_input. destruct (xattr a_source i) as [[a|h a|z]|]; try leaf.
+  destruct h; [|leaf]. destruct (sget sc a) as [[|srcs]|]; try leaf.
+  - destruct (xattr a_semantic i) as [[m|? ?|?]|]; try leaf.
+    destruct (existsb (N.eqb m) _); leaf.
+  - destruct (forallb _ srcs); leaf.
+Qed.
+
+Lemma good_check_inputs sc : forall ins, good (check_inputs sc ins).
+Proof.
+  induction ins as [|i r IH]; simpl; [exact I|]. apply good_andthen; [apply good_check_input|exact IH].
+Qed.
+
+Lemma good_triangles ns sc x : good (load_triangles ns sc x).
+Proof.
+  unfold load_triangles. destruct (findall ns a_p x) as [|p ps]; [leaf|].
+  pose proof (good_parse_offsets (findall ns a_input x)) as Ho.
+  destruct (parse_offsets (findall ns a_input x)) as [offs|e]; [|exact Ho].
+  apply good_andthen; [apply good_check_inputs|].
+  destruct offs as [|o os]; [leaf|].
+  assert (Hc : good (index_count (xtext p))).
+  { unfold index_count. destruct (xtext p) as [[|t ts]|]; try leaf. destruct (forallb good_tok (t :: ts)); leaf. }
+  destruct (index_count (xtext p)) as [n|e]; [|exact Hc].
+  match goal with |- context [Nat.eqb ?a ?b] => destruct (Nat.eqb a b) end; leaf.
+Qed.
+
+Lemma guard_in_only_dae b {A} (o : outcome A) :
+  has_raw_clause b = true -> good o ->
+  match guard_in b o with Ok _ => True | Raise e => is_dae e = true end.
+Proof.
+  intros Hb G. unfold guard_in. destruct o as [v|e]; [exact I|].
+  rewrite is_dae_gen_agrees. destruct (is_dae e) eqn:D; [exact D|].
+  simpl in G. destruct G as [G|G]; [congruence|]. rewrite Hb, G. reflexivity.
+Qed.
+
+Lemma guard_in_raw b {A} (o : outcome A) e :
+  has_raw_clause b = true -> good o -> o = Raise e -> is_dae e = false ->
+  is_rawload e = true /\ guard_in b o = Raise DaeMalformed.
+Proof.
+  intros Hb G -> D. simpl in G. destruct G as [G|G]; [congruence|]. split; [exact G|].
+  unfold guard_in. rewrite is_dae_gen_agrees, D, Hb, G. reflexivity.
+Qed.
+
+Lemma effects_boundary : has_raw_clause (BLib LEffects) = true. Proof. vm_compute. reflexivity. Qed.
+Lemma geometry_boundary : has_raw_clause (BLib LGeometry) = true. Proof. vm_compute. reflexivity. Qed.
+Lemma controllers_boundary : has_raw_clause (BLib LControllers) = true. Proof. vm_compute. reflexivity. Qed.
